@@ -59,6 +59,27 @@ def _copy_idiom(A, x):
     return c * b + d
 
 
+def _buf_bcast_rows(A, x):
+    # the right hand side is broadcast into the selected block of the buffer
+    b = A.zeros((2, 3), dtype=x)
+    b[...] = x
+    return b * A.c['m']
+
+
+def _buf_bcast_scalar(A, x):
+    b = A.zeros(3, dtype=x)
+    b[0:2] = x[0] * x[1]
+    b[2] = x[2]
+    return b * x
+
+
+def _buf_bcast_cols(A, x):
+    b = A.zeros((2, 3), dtype=x)
+    b[:, 0:2] = x[0:2]
+    b[:, 2] = x[2]
+    return b * b
+
+
 def _paused(A, x):
     # recording is suspended with trace_off() and resumed with trace_on(): what ran while
     # recording was on is on the tape, what ran in between is not
@@ -152,6 +173,9 @@ def catalogue():
     add('buffer-overwrite', _buf_overwrite, group='buffer')
     add('buffer-view-dot', _buf_view, group='buffer')
     add('copy idiom (b + 0) then overwrite', _copy_idiom, group='buffer')
+    add('buffer, vector broadcast into rows', _buf_bcast_rows, group='buffer', consts={'m': (2, 3)})
+    add('buffer, scalar broadcast into a slice', _buf_bcast_scalar, group='buffer')
+    add('buffer, vector broadcast into columns', _buf_bcast_cols, group='buffer')
     add('paused recording', _paused, group='buffer')
     add('paused recording twice', _paused_twice, group='buffer')
     add('prod(x)+sum(x*x)', lambda A, x: A.prod(x) + A.sum(x * x), group='reduce')
@@ -250,6 +274,12 @@ def catalogue():
     add('real(fft(x))', lambda A, x: A.real(A.fft.fft(x)) * x, shape=(4,), group='fft')
     add('real(ifft(fft(x,axis=0)*fft(x,axis=0),axis=0))', lambda A, x: A.real(A.fft.ifft(A.fft.fft(x, axis=0) * A.fft.fft(x, axis=0), axis=0)), shape=(2, 2), group='fft')
     add('real(fft(x,axis=-1))+imag', lambda A, x: A.real(A.fft.fft(x, axis=-1)) + A.imag(A.fft.fft(x, axis=-1)), shape=(2, 2), group='fft')
+    # complex intermediate combined with the real input on either side of - and /
+    add('real(fft(x)-x)', lambda A, x: A.real(A.fft.fft(x) - x), shape=(4,), group='fft')
+    add('real(x-fft(x))', lambda A, x: A.real(x - A.fft.fft(x)), shape=(4,), group='fft')
+    add('imag(fft(x)/x)', lambda A, x: A.imag(A.fft.fft(x) / x), shape=(4,), dom='nonzero', group='fft')
+    add('real(fft(x)*x)+imag(x*fft(x))', lambda A, x: A.real(A.fft.fft(x) * x) + A.imag(x * A.fft.fft(x)), shape=(4,), group='fft')
+    add('real(fft(x)+x)', lambda A, x: A.real(A.fft.fft(x) + x) * x, shape=(4,), group='fft')
     # ---- compositions --------------------------------------------------------------
     add('sum(x*exp(x)/(1+x0*x1)+sin(x)*x[::-1])', lambda A, x: A.sum(x * A.exp(x) / (1. + x[0] * x[1]) + A.sin(x) * x[::-1]), group='comp', dom='den01')
     add('exp(dot)', lambda A, x: A.exp(A.dot(x, x)) * x, group='comp')
